@@ -125,19 +125,76 @@ Definition float_bits (neg : bool) (me : option (Z * Z)) (p ebits : Z) : Z :=
     else signbit + (e + bias + (p - 1)) * 2 ^ (p - 1) + (m - 2 ^ (p - 1))
   end.
 
-(* Only the decimal forms the grammar and json.Number can produce, plus inf/nan spellings are NOT handled here (spike). *)
 Fixpoint lower_str (s : string) : string := match s with "" => "" | String c t => String (z2b (lower (b2z c))) (lower_str t) end.
 
-Definition parse_float_num (s : string) (bits : Z) : pres Z :=
+Fixpoint has_us (s : string) : bool := match s with "" => false | String c t => (b2z c =? 95) || has_us t end.
+Fixpoint strip_us (s : string) : string := match s with "" => "" | String c t => if b2z c =? 95 then strip_us t else String c (strip_us t) end.
+
+Fixpoint hexdigits_val (s : string) (acc : Z) (nd : Z) : Z * Z * string :=   (* value, count, rest *)
+  match s with
+  | String c t =>
+      let x := lower (b2z c) in
+      if (48 <=? x) && (x <=? 57) then hexdigits_val t (acc * 16 + (x - 48)) (nd + 1)
+      else if (97 <=? x) && (x <=? 102) then hexdigits_val t (acc * 16 + (x - 87)) (nd + 1)
+      else (acc, nd, s)
+  | "" => (acc, nd, "")
+  end.
+
+(* exponent part after the exponent character: optional sign, at least one decimal digit, nothing after it *)
+Definition exp_part (r : string) : option Z :=
+  match r with
+  | String sg r' =>
+      let eneg := b2z sg =? 45 in
+      let r'' := if (b2z sg =? 43) || eneg then r' else r in
+      match digits_val r'' 0 0 with
+      | Some (v, k, rr) => if (k =? 0) || negb (String.eqb rr "") then None else Some (if eneg then - v else v)
+      | None => None end
+  | "" => None
+  end.
+
+(* readFloat + atof (decimal) / atofHex, without underscores: exact value, then one correct rounding.
+   Exponents beyond any representable magnitude are decided without computing the power. *)
+Definition parse_float_core (s : string) (bits : Z) : pres Z :=
   let '(p, ebits) := if bits =? 32 then (24, 8) else (53, 11) in
   let bias := 2 ^ (ebits - 1) - 1 in
   let emin := 1 - bias - (p - 1) in
   let emaxe := bias - (p - 1) in
+  let zero neg := POk (float_bits neg (Some (0, emin)) p ebits) in
   match s with
   | "" => PErr PSyntax
   | String c t =>
     let neg := b2z c =? 45 in
     let body := if (b2z c =? 43) || neg then t else s in
+    let is_hex := match body with String z (String x (String _ _)) => (b2z z =? 48) && (lower (b2z x) =? 120) | _ => false end in
+    if is_hex then
+      let '(ip, ni, rest) := hexdigits_val (stail (stail body)) 0 0 in
+      let '(fp, nf, rest2) :=
+        match rest with
+        | String dot r => if b2z dot =? 46 then hexdigits_val r 0 0 else (0, 0, rest)
+        | "" => (0, 0, "") end in
+      if (ni + nf =? 0) then PErr PSyntax else
+      match rest2 with
+      | String pc r =>
+        if lower (b2z pc) =? 112 then
+          match exp_part r with
+          | None => PErr PSyntax
+          | Some ex =>
+            let mant := ip * 16 ^ nf + fp in
+            let e2 := ex - 4 * nf in
+            if mant =? 0 then zero neg
+            else if 1100 <? e2 + Z.log2 mant then PErr PRange
+            else if e2 + Z.log2 mant <? -1200 then zero neg
+            else
+              let '(n, d) := if 0 <=? e2 then (mant * 2 ^ e2, 1) else (mant, 2 ^ (- e2)) in
+              match round_rat n d p emin emaxe with
+              | None => PErr PRange
+              | Some me => POk (float_bits neg (Some me) p ebits)
+              end
+          end
+        else PErr PSyntax
+      | "" => PErr PSyntax       (* a hexadecimal mantissa must have a p exponent *)
+      end
+    else
     match digits_val body 0 0 with
     | None => PErr PSyntax
     | Some (ip, ni, rest) =>
@@ -147,29 +204,31 @@ Definition parse_float_num (s : string) (bits : Z) : pres Z :=
         | "" => (0, 0, "") end in
       if (ni + nf =? 0) then PErr PSyntax else
       let mant := ip * 10 ^ nf + fp in
-      let '(ex, okexp, rest3) :=
+      let exo :=
         match rest2 with
-        | String e r =>
-          if lower (b2z e) =? 101 then
-            match r with
-            | String sg r' =>
-              let eneg := b2z sg =? 45 in
-              let r'' := if (b2z sg =? 43) || eneg then r' else r in
-              match digits_val r'' 0 0 with
-              | Some (v, k, rr) => if k =? 0 then (0, false, rr) else ((if eneg then - v else v), true, rr)
-              | None => (0, false, r'') end
-            | "" => (0, false, "") end
-          else (0, true, rest2)
-        | "" => (0, true, "") end in
-      if negb okexp || negb (String.eqb rest3 "") then PErr PSyntax else
-      let e10 := ex - nf in
-      let '(n, d) := if 0 <=? e10 then (mant * 10 ^ e10, 1) else (mant, 10 ^ (- e10)) in
-      match round_rat n d p emin emaxe with
-      | None => PErr PRange
-      | Some me => POk (float_bits neg (Some me) p ebits)
+        | String e r => if lower (b2z e) =? 101 then exp_part r else None
+        | "" => Some 0 end in
+      match exo with
+      | None => PErr PSyntax
+      | Some ex =>
+        let e10 := ex - nf in
+        if mant =? 0 then zero neg
+        else if 310 <? e10 then PErr PRange
+        else if Z.log2 mant + 1 + 3 * e10 <? -1100 then zero neg
+        else
+          let '(n, d) := if 0 <=? e10 then (mant * 10 ^ e10, 1) else (mant, 10 ^ (- e10)) in
+          match round_rat n d p emin emaxe with
+          | None => PErr PRange
+          | Some me => POk (float_bits neg (Some me) p ebits)
+          end
       end
     end
   end.
+
+(* underscores may separate digits (strconv.underscoreOK); they do not change the value *)
+Definition parse_float_num (s : string) (bits : Z) : pres Z :=
+  if has_us s then (if underscore_ok s then parse_float_core (strip_us s) bits else PErr PSyntax)
+  else parse_float_core s bits.
 
 Definition parse_float (s : string) (bits : Z) : pres Z :=
   let '(p, ebits) := if bits =? 32 then (24, 8) else (53, 11) in
